@@ -1,3 +1,4 @@
+mod alloc;
 mod ctx;
 mod driver;
 mod heapcheck;
@@ -6,6 +7,9 @@ mod session;
 mod sut;
 
 use ctx::{Ctx, Outcome, Tier};
+
+#[global_allocator]
+static GLOBAL: alloc::Counting = alloc::Counting;
 use serde_json::Value;
 use std::collections::HashSet;
 
